@@ -531,3 +531,82 @@ def _oer_utf8_fixed_any(ctx):
         if n.r.base.kind == 'UTF8String' and s is not None and not s.ext and s.lo is not None and s.lo == s.hi:
             return True
     return False
+
+
+# ---------------------------------------------------------------------------
+# C09 / C10: generated C code
+
+def _c_types(ctx):
+    """walk_types nodes of the failing type, or of every type of the module set for module-level failures"""
+    from . import common, jsonio
+    c = ctx.case
+    spec = jsonio.spec_dec(c['spec'])
+    out = []
+    if c.get('module') and c.get('type'):
+        ty = dict(spec.by_name[c['module']].types)[c['type']]
+        return spec, list(common.walk_types(spec, ty, c['module']))
+    for m in spec.modules:
+        for name, ty in m.types:
+            out.extend(common.walk_types(spec, ty, m.name))
+    return spec, out
+
+
+def _constructed_addition(nodes):
+    for n in nodes:
+        if n.in_additions and n.parent is not None and n.parent.r.base.kind == 'SEQUENCE' \
+                and n.r.base.kind in ('SEQUENCE', 'CHOICE', 'SEQUENCE OF'):
+            return True
+    return False
+
+
+@finding('C10', 'oer-c-addition-length-static')
+def _oer_c_addition_length(ctx):
+    # source/c/oer.py get_encoded_*_lengths: the length prefix of an extension addition is computed from the
+    # type, not from the value: OPTIONAL/DEFAULT members of an addition SEQUENCE are counted as present, list
+    # elements as fixed-size, and the helper for a CHOICE is named after the member only and written for the
+    # wrong struct (does not compile for a referenced CHOICE or a CHOICE list element)
+    if ctx.f.kind not in ('encode-differs', 'does-not-compile'):
+        return False
+    if ctx.f.kind == 'does-not-compile' and 'length' not in ctx.f.message:
+        return False
+    spec, nodes = _c_types(ctx)
+    return _constructed_addition(nodes)
+
+
+@finding(('C09', 'C10'), 'c-choice-additions-dropped')
+def _c_choice_additions(ctx):
+    # source/c/oer.py get_choice_members/format_choice_inner use root_members only: the alternatives after
+    # '...' of a CHOICE are missing from the generated enum, union, encoder and decoder
+    if ctx.f.kind not in ('mis-translation', 'named-bit-constant', 'v1-c-decoder-rejects-v2'):
+        return False
+    spec, nodes = _c_types(ctx)
+    if ctx.f.kind == 'v1-c-decoder-rejects-v2':
+        # the V2 value, seen by V1, selects an alternative V1 declares after '...'
+        from . import common, evolve, jsonio
+        c = ctx.case
+        ty = dict(spec.by_name[c['module']].types)[c['type']]
+        v1 = evolve.project(spec, ty, c['module'], jsonio.dec(c['foreign']['value']))
+        for n in common.walk_values(spec, ty, c['module'], v1):
+            b = n.r.base
+            if b.kind == 'CHOICE' and isinstance(n.value, tuple) and b.ext:
+                names = set()
+                for a in b.ext:
+                    for m in (a.members if isinstance(a, asn.Group) else [a]):
+                        names.add(m.name)
+                if n.value[0] in names:
+                    return True
+        return False
+    if ctx.f.kind == 'named-bit-constant':
+        return any(n.in_additions and n.parent is not None and n.parent.r.base.kind == 'CHOICE' for n in nodes)
+    if 'has no enumerator' not in ctx.f.message:
+        return False
+    for n in ctx.vnodes():
+        b = n.r.base
+        if b.kind == 'CHOICE' and isinstance(n.value, tuple) and b.ext:
+            names = set()
+            for a in b.ext:
+                for m in (a.members if isinstance(a, asn.Group) else [a]):
+                    names.add(m.name)
+            if n.value[0] in names:
+                return True
+    return False
